@@ -167,3 +167,110 @@ let str_event = function
   | ELeak -> "leak"
   | EStuck -> "STUCK"
   | EOutOfFuel -> "OUTOFFUEL"
+
+(* ---------- parsing traces back into events (implementation or model traces) ---------- *)
+let parse_tok (s : string) : tok =
+  if s = "?" || s = "" then TGarbage
+  else
+    try
+      match s.[0] with
+      | 'o' -> TOut (n_of_int (int_of_string (drop 1 s)))
+      | 'e' -> TErr (n_of_int (int_of_string (drop 1 s)))
+      | 'u' -> TUp (nat_of_int (int_of_string (drop 1 s)))
+      | 'i' ->
+        let r = drop 1 s in
+        let j = String.index r '.' in
+        TItem (n_of_int (int_of_string (String.sub r 0 j)), nat_of_int (int_of_string (drop (j + 1) r)))
+      | _ -> TGarbage
+    with _ -> TGarbage
+
+let parse_toks (s : string) : tok list =
+  if s = "-" || s = "" then [] else List.map parse_tok (split_on ',' s)
+
+let opt_of f s = if s = "-" then None else Some (f s)
+let kv_val (kv : string) = match String.index_opt kv '=' with Some i -> drop (i + 1) kv | None -> ""
+
+(* addrs: table from address text to an id, per history *)
+let parse_event (addrs : (string, int) Hashtbl.t) (line : string) : event option =
+  let addr a =
+    let id = match Hashtbl.find_opt addrs a with
+      | Some i -> i
+      | None -> let i = Hashtbl.length addrs in Hashtbl.add addrs a i; i in
+    (nat_of_int id, O) in
+  let nat s = try nat_of_int (int_of_string s) with _ -> nat_of_int 999999 in
+  let cidn s = try n_of_int (int_of_string s) with _ -> n_of_int 999999 in
+  match split_on ' ' line with
+  | ["blk"; "alloc"; b; c] -> Some (EBlkAlloc (nat b, nat c))
+  | ["blk"; "free"; b] -> Some (EBlkFree (nat b))
+  | "vtbad" :: _ -> Some EVtBad
+  | ["cpoll"; c; b; s; a] -> Some (ECPoll (cidn c, nat b, nat s, addr a))
+  | ["cans"; c; r] -> Some (ECAns (cidn c, parse_res r))
+  | ["cdrop"; c; "ext"] -> Some (ECDrop (cidn c, None))
+  | ["cdrop"; c; a] -> Some (ECDrop (cidn c, Some (addr a)))
+  | ["odrop"; t; w] -> Some (EODrop (parse_tok t, w = "in"))
+  | ["twake"; w; "child"] -> Some (ETWake (nat w, CChild))
+  | ["twake"; w; "crate"] -> Some (ETWake (nat w, CCrate))
+  | ["uppoll"; "item"; c] -> Some (EUpPoll (UAItem (cidn c)))
+  | ["uppoll"; "pend"] -> Some (EUpPoll UAPend)
+  | ["uppoll"; "end"] -> Some (EUpPoll UAEnd)
+  | ["uppoll"; "err"; t] -> Some (EUpPoll (UAErr (parse_tok t)))
+  | ["uppoll"; "after-end"] -> Some (EUpPoll UAAfterEnd)
+  | ["updrop"] -> Some EUpDrop
+  | ["refused"; c] -> Some (ERefused (cidn c))
+  | ["ret"; "pending"] -> Some (ERet RetPending)
+  | ["ret"; "none"] -> Some (ERet RetNone)
+  | ["ret"; "item"; t] -> Some (ERet (RetItem (parse_tok t)))
+  | ["ret"; "ready"; l] -> Some (ERet (RetReady (parse_toks l)))
+  | ["ret"; "okv"; l] -> Some (ERet (RetOkv (parse_toks l)))
+  | ["ret"; "err"; t] -> Some (ERet (RetErr (parse_tok t)))
+  | ["ret"; "done"] -> Some (ERet RetDone)
+  | ["ret"; "ok"] -> Some (ERet RetOk)
+  | ["ret"; "refused"] -> Some (ERet RetRefused)
+  | ["ret"; "panic"] -> Some (ERet RetPanic)
+  | ["ret"; "runaway"] -> Some (ERet RetRunaway)
+  | ["obs"; l; e; c; h; t] ->
+    let hint s =
+      match split_on ',' s with
+      | [lo; "none"] -> (nat lo, None)
+      | [lo; hi] -> (nat lo, Some (nat hi))
+      | _ -> (O, None) in
+    Some (EObs { ob_len = opt_of nat (kv_val l); ob_empty = opt_of (fun s -> s = "1") (kv_val e);
+                 ob_cap = opt_of nat (kv_val c); ob_hint = opt_of hint (kv_val h);
+                 ob_term = opt_of (fun s -> s = "1") (kv_val t) })
+  | ["alloc"; n] -> Some (EAlloc (nat n))
+  | "leak" :: _ | "twbal" :: _ -> Some ELeak
+  | ["STUCK"] -> Some EStuck
+  | ["OUTOFFUEL"] -> Some EOutOfFuel
+  | _ -> None
+
+(* reads a trace file: name -> (op index -> events) *)
+let read_trace_file (path : string) : (string, (int * event list) list) Hashtbl.t =
+  let tbl = Hashtbl.create 1024 in
+  let ic = open_in path in
+  let cur = ref "" and ops = ref [] and evs = ref [] and curk = ref (-1) in
+  let addrs = ref (Hashtbl.create 16) in
+  let flush_op () = (if !curk >= 0 || !curk = -2 then ops := (!curk, List.rev !evs) :: !ops); evs := []; curk := -1 in
+  (try
+     while true do
+       let line = input_line ic in
+       if starts_with "hist " line then begin
+         cur := drop 5 line; ops := []; evs := []; curk := -1; addrs := Hashtbl.create 16
+       end else if line = "endhist" then begin
+         flush_op (); Hashtbl.replace tbl !cur (List.rev !ops)
+       end else if starts_with "op " line then begin
+         flush_op ();
+         (match split_on ' ' line with
+          | _ :: k :: rest ->
+            curk := int_of_string k;
+            (* the pseudo-op "endhist" carries leak diagnostics: attach them to the last real op *)
+            if rest = ["endhist"] then curk := -2
+          | _ -> ())
+       end else begin
+         match parse_event !addrs line with
+         | Some e -> if !curk = -2 then evs := e :: !evs else evs := e :: !evs
+         | None -> ()
+       end
+     done
+   with End_of_file -> ());
+  close_in ic;
+  tbl
